@@ -1,20 +1,22 @@
 NOTES = ("Static analysis only (go/packages + go/ssa, x/tools v0.29.0): nothing in /repo is built or executed by the checks. "
-         "Two genuine defects were repaired by fix: commits in /repo (see known_findings.txt and DESIGN.md section 6).")
+         "Two genuine defects were repaired by fix: commits in /repo (see known_findings.txt and DESIGN.md section 6). "
+         "seeded/ holds 65 independently produced and confirmed seeded defects plus the two fix reverts; DESIGN.md section 10 records which check catches which.")
+ALL = ["C%02d" % i for i in range(1, 21)]
 ENGINES = [
- {"name": "edcheck", "path": "/verif/cmd/edcheck", "serves_properties": ["C01","C02","C03","C04","C05","C06","C07","C09","C10","C11","C12","C14","C17"],
-  "kind_free_text": "repository-specific static analyser over go/ssa: path/term engine (guards G, operand shapes S, hash transcripts H), finite predicate abstraction (F), batch structure via per-iteration region paths and affine indices (B), constant audits (A)"},
+ {"name": "edcheck", "path": "/verif/cmd/edcheck", "serves_properties": ALL,
+  "kind_free_text": "repository-specific static analyser over go/ssa: path/term engine (guards G, operand shapes S, hash transcripts H), finite predicate abstraction (F), batch structure via per-iteration region paths and affine indices (B), provenance/effects (M), secret taint (T), assembly lint (Z), configuration matrix (K), constant/table audits (A), unrolled-stage uniformity (U), abstract interpretation with intervals x bit provenance x value numbers (O bit-origin, E finite evaluation, R magnitudes)"},
 ]
 NA = {}
 TB = "Trusted: go/packages, go/types, go/ssa (x/tools v0.29.0); the specification tables in /verif/cmd/edcheck (transcribed from the property statement and README). A rewrite into a shape the analyser does not model is reported as unrecognised (fail closed), which is a deliberate limit, not a counter-example."
 def fill(chk):
     chk("C01", "other",
-        "Decides the composition: the decision structure of single verification (all control-flow paths of the verifier core, its no-panic wrapper and both entry points) equals the documented guard set on every world of a finite partition (length classes x top-byte classes x truth of the opaque predicates), no other rejection reason exists, and the accepted value is the cofactored equation over the documented operands with the challenge hashed over the bytes as supplied; S<L is proved exact by finite predicate abstraction.",
+        "Decides the composition: the decision structure of single verification (all control-flow paths of the verifier core, its no-panic wrapper and both entry points) equals the documented guard set on every world of a finite partition (length classes x top-byte classes x truth of the opaque predicates), no other rejection reason exists, and the accepted value is the cofactored equation over the documented operands with the challenge hashed over the bytes as supplied; S<L is proved exact by finite predicate abstraction; the scalar layer (mod-L reduction chains, (de)serialisation, recoding digit extraction) is checked structurally on both limb layouts.",
         TB + " Not decided: that the primitives (decode, scalar mult, field/scalar arithmetic) compute what their names say.",
         "path enumeration + guard truth tables + def-use term reconstruction on go/ssa", "DESIGN.md section 5 C01")
     chk("C02", "other",
-        "Decides the RFC 8032 composition of signing and key derivation as exact uninterpreted terms (both hash transcripts, clamp as byte truth tables, S = Contract(Add(Mul(h,a),r)), R = Pack([r]B)), the option dispatch of the crypto.Signer entry point for all three ways of passing options, and that the entropy argument has zero uses.",
+        "Decides the RFC 8032 composition of signing and key derivation as exact uninterpreted terms (both hash transcripts, clamp as byte truth tables, S = Contract(Add(Mul(h,a),r)), R = Pack([r]B)), the option dispatch of the crypto.Signer entry point for all three ways of passing options, that the entropy argument has zero uses and that the signing cone is pure (no global writes, no entropy, only modelled externals); scalar layer structural rules on both layouts.",
         TB + " Not decided: byte-exactness of the arithmetic primitives.",
-        "def-use term reconstruction + hash-transcript typestate + guard truth tables on go/ssa", "DESIGN.md section 5 C02")
+        "def-use term reconstruction + hash-transcript typestate + guard truth tables + effects analysis on go/ssa", "DESIGN.md section 5 C02")
     chk("C03", "other",
         "Decides sibling agreement between signer and all verifiers (same challenge transcript and dom2 rule, single and batch), that S is the Contract of the reducing scalar Add without post-processing, that no verifier (single, batch fast path, fallback, remainder) has a rejection reason outside the documented list, and that the one magnitude test is exactly S<L.",
         TB + " Not decided: honest R and A are never small order (group theory) and the arithmetic.",
@@ -35,27 +37,55 @@ def fill(chk):
         "Decides the context-length partition {0},{1..255},{256..} and the hash-selector x digest-length table exactly, the dom2 encoding (RFC prefix, flag byte, lossless length byte, context) and its placement before R||A||M at every hash site iff the variant is not pure, the flag constants, and the refusal surfaces of Sign / VerifyWithOptions / VerifyBatch.",
         TB + " Not decided: cross-acceptance impossibility itself (needs collision resistance of SHA-512).",
         "interval-partition evaluation of guards + hash-transcript typestate on go/ssa", "DESIGN.md section 5 C07")
+    chk("C08", "other",
+        "Decides the necessary conditions a backend-confined divergence would have to break, on every configuration of the matrix: expected sibling-file selection, equal exported API, layout constants, constants and both tables equal to independently recomputed values on both layouts, assembly selector lint, finite evaluation of the table selector (32x17 cases) and of the conditional swap, unrolled-stage uniformity, bit-exact (de)serialisers and digit extraction, and the magnitude fixpoint (no overflow / lost carry) on both limb layouts.",
+        TB + " Not decided: observational equality of outputs on all inputs (numeric).",
+        "configuration-matrix type-checking + constant audits + abstract interpretation + sibling-agreement rules", "DESIGN.md section 5 C08")
     chk("C09", "other",
         "Decides the shape of the small-order predicate: undecodable => small, exactly three doublings, identity test on the contracted X, Y, Z (X=0 and Y=Z), used at exactly the documented call sites and always gated by !zip215 (single and batch).",
         TB + " Not decided: the doubling formula's algebra and the group theory of the torsion subgroup.",
         "def-use term reconstruction + guard truth tables", "DESIGN.md section 5 C09")
     chk("C10", "other",
-        "Decides the structure of the lenient decoder (exactly one rejection, sign from bit 255 compared with the parity of the contracted x, y=Expand(p), z=1, t=xy), that UnpackVartime flips bit 255 on a private copy, and that Pack writes Contract(y/z) with the parity of Contract(x/z) folded into bit 255 (byte truth tables), on every configuration of the tier.",
+        "Decides the structure of the lenient decoder (exactly one rejection, sign from bit 255 compared with the parity of the contracted x, y=Expand(p), z=1, t=xy), that UnpackVartime flips bit 255 on a private copy, that Pack writes Contract(y/z) with the parity of Contract(x/z) folded into bit 255 (byte truth tables), that the key conversion fails exactly when decoding fails, and (bit provenance) that field Expand ignores bit 255, on every configuration of the tier.",
         TB + " Not decided: that the exponentiation chain computes the square root and that Contract is canonical for every representation (numeric).",
-        "path enumeration + def-use term reconstruction + byte truth tables", "DESIGN.md section 5 C10")
+        "path enumeration + def-use term reconstruction + byte truth tables + bit-provenance abstract interpretation", "DESIGN.md section 5 C10")
     chk("C11", "other",
-        "Decides the error/no-output contract of X25519 on all length classes, that the fast path is selected by slice identity only, the clamp and the raw (unreduced) scalar expansion, the u=(Y+Z)/(Z-Y) operand shape and the delegation of the generic path.",
+        "Decides the error/no-output contract of X25519 on all length classes, that the fast path is selected by slice identity only, the clamp and the raw (unreduced) scalar expansion, the u=(Y+Z)/(Z-Y) operand shape, the delegation of the generic path, that the radix-16 recoding consumes all 256 scalar bits and the table selector's complete finite domain.",
         TB + " Not decided: agreement of the Edwards fast path with the Montgomery ladder on all scalars (numeric).",
-        "guard truth tables over length classes + def-use term reconstruction", "DESIGN.md section 5 C11")
+        "guard truth tables over length classes + def-use term reconstruction + abstract interpretation", "DESIGN.md section 5 C11")
     chk("C12", "other",
         "Decides that the private conversion is clamp(SHA-512(seed)[:32]) in a fresh slice, and that the public conversion fails exactly when decoding fails and otherwise returns Contract((1+y)*Recip(1-y)).",
         TB + " Not decided: commutation with key generation (numeric).",
         "def-use term reconstruction + hash-transcript typestate", "DESIGN.md section 5 C12")
+    chk("C13", "other",
+        "Decides that the documented panics are matched by guard in the decision structures of Sign / Verify / VerifyWithOptions / NewKeyFromSeed, that the batch verifier checks every entry's lengths before use and delegates to the no-panic helper, that X25519 returns errors for wrong lengths before touching the data, and (effects analysis, every configuration) that no exported function writes memory reachable from a caller-supplied slice and results are fresh.",
+        TB + " Not decided: index sites whose safety rests on data invariants of the arithmetic (listed as assumptions).",
+        "guard truth tables + provenance/effects analysis with summaries", "DESIGN.md section 5 C13")
     chk("C14", "other",
-        "Decides that GenerateKey passes the reader to exactly one io.ReadFull on a fresh 32-byte buffer with error => (nil,nil,err), that the private key is seed||public, that Public/Seed return the right halves and that Equal is same dynamic type plus whole-slice equality.",
+        "Decides that GenerateKey passes the reader to exactly one io.ReadFull on a fresh 32-byte buffer with error => (nil,nil,err), that the private key is seed||public, that Public/Seed return fresh copies of the right halves and that Equal is same dynamic type plus whole-slice equality.",
         TB,
-        "path enumeration + def-use term reconstruction", "DESIGN.md section 5 C14")
+        "path enumeration + def-use term reconstruction + provenance analysis", "DESIGN.md section 5 C14")
+    chk("C15", "proof",
+        "On every configuration: no function outside package initialisers writes memory reachable from a package-level variable (one dead test switch frozen with its reason), exported functions write only locals and declared out-parameters, no goroutine/channel/defer/sync construct and no unmodelled external exists. Hence concurrent calls on read-only shared inputs have no conflicting accesses and results depend on arguments only.",
+        "Trusted: Go memory model; externals table (sha512.New returns a fresh object, crypto/rand.Reader is concurrency-safe); the flow-insensitive provenance analysis is an over-approximation and unknown provenance fails closed.",
+        "mod/ref effects analysis with bottom-up summaries over go/ssa", "DESIGN.md section 5 C15")
+    chk("C16", "other",
+        "Decides that both precomputed tables are exactly the documented multiples of B (recomputed independently, both layouts), the table selector on its complete 32x17 domain (reference and assembly variants), uniformity of the unrolled conditional-move, exact digit extraction of both recodings, and that no scratch table is shared between calls.",
+        TB + " Not decided: that the schedule composed with the group law yields [s]B and [s1]P+[s2]B for all scalars.",
+        "constant-table audit with independent big-integer curve arithmetic + finite abstract evaluation + bit provenance", "DESIGN.md section 5 C16")
     chk("C17", "other",
-        "Decides the set-up of the batch equation (slot/term correspondence, one randomiser in its three places, base point in slot 0, count 2n+1, summation before slot reuse, per-chunk re-initialisation) and that the fallback is entered iff the fast-path flag is false.",
+        "Decides the set-up of the batch equation (slot/term correspondence, one randomiser in its three places, base point in slot 0, count 2n+1, summation before slot reuse, per-chunk re-initialisation), that the fallback is entered iff the fast-path flag is false, that the heap is seeded with an odd number of scalars covering all full-size ones for every chunk size, and the uniformity of the variable-time subtraction chain.",
         TB + " Not decided: exactness of the Bos-Coster heap arithmetic.",
-        "per-iteration region path enumeration with affine index normal forms", "DESIGN.md section 5 C17")
+        "per-iteration region path enumeration with affine index normal forms + finite abstract evaluation", "DESIGN.md section 5 C17")
+    chk("C18", "other",
+        "Decides the 'no lost carry or overflow' clause for all operands within the caller-reachable magnitudes, which the analysis computes itself as a fixpoint of the group law over per-limb intervals on both limb layouts; bias constants are 2p/4p and dominate reduced limbs; carry chains are uniform and shift by the limb width; Expand ignores bit 255; SwapConditional is exactly a swap or a no-op on all limb bits.",
+        TB + " Not decided: value exactness of Mul/Square and Contract's canonicalisation argument (relational).",
+        "interval x bit-provenance abstract interpretation with value numbering + sibling-agreement rules", "DESIGN.md section 5 C18")
+    chk("C19", "other",
+        "Decides m = L and mu = floor(2^512/L) on both layouts, uniformity and per-limb constants of the conditional-subtraction and Barrett borrow chains, that Expand skips the reduction only below 32 bytes, bit-exactness of ExpandRaw/Expand/Contract and of the digit extraction of both recodings, absence of overflow / lost carries / dropped non-zero values in Add, Mul, barrettReduce.",
+        TB + " Not decided: that Barrett's estimate plus two conditional subtractions yields the canonical residue; that the signed recodings represent their input.",
+        "interval x bit-provenance abstract interpretation + sibling-agreement rules + constant audit", "DESIGN.md section 5 C19")
+    chk("C20", "proof",
+        "For every entry point with its secret inputs marked, on every configuration of the tier, no tainted value reaches a branch condition, an index or slice bound, a variable-time callee, a non-constant division or a variable shift; the assembly selector is branch-free with constant addressing. Zero sinks => identical control-flow and address traces for executions that differ only in secrets (non-interference of the taint lattice).",
+        "Trusted: externals marked constant-time (crypto/sha512, crypto/subtle, math/bits.Mul64/Add64, x/crypto curve25519), declassification of the one-bit result of subtle.ConstantTimeCompare, the Go compiler not introducing branches.",
+        "context-sensitive secret-taint analysis over provenance roots + assembly linter", "DESIGN.md section 5 C20")
